@@ -53,7 +53,8 @@ type scenario struct {
 type probe struct {
 	at       time.Duration // when the library wrote the Linktest.req
 	answered bool
-	rspAt    time.Duration // when the answer reached the library
+	rspAt    time.Duration // when the answer reached the library (estimate until it is delivered)
+	rspTx    *refhsms.TxFrame
 }
 
 type act struct {
@@ -285,6 +286,7 @@ func (h *harness) onFrame(c *refhsms.Conn, f refhsms.RxFrame) {
 			w.After(d, "linktest-rsp", func() {
 				if c.Alive() {
 					c.SendFrame(refhsms.Header{Session: 0xFFFF, SType: refhsms.STLinktestRsp, Sys: f.H.Sys}, nil)
+					p.rspTx = c.Tx[len(c.Tx)-1] // (the line delivers one segment per latency: the real arrival may be later than the estimate)
 				}
 			})
 		}
@@ -453,6 +455,9 @@ func (h *harness) final(reason string) {
 			done := prev.at + sc.T6
 			if prev.answered {
 				done = prev.rspAt
+				if prev.rspTx != nil && prev.rspTx.DeliveredAt() >= 0 {
+					done = prev.rspTx.DeliveredAt()
+				}
 			}
 			if d := p.at - (done + sc.I); d < 0 || d > eps {
 				w.Fail("PROBE_TIME", "suppression off: probe #%d written at %v; the previous probe completed at %v, so this one is due exactly one interval later (%v)%s", i, p.at, done, done+sc.I, ctx)
